@@ -47,6 +47,7 @@ class Collector:
         self.strict_warnings = False
         self.low_limit = 0          # >0 while faults.low_stack() runs a call with little stack left
         self.high_limit = 0
+        self.env_fault = False      # tuple of exception types while faults.environment() runs a call the environment will fail
         self._sample_tick = 0
 
     # -- counters ---------------------------------------------------------
